@@ -223,7 +223,7 @@ def real_apply(kind, prog, params=()):
     """memoised (impl and oracle see the same request)"""
     key = (kind, dumps(prog), tuple(params))
     if key not in _cache:
-        if len(_cache) > 64:
+        if len(_cache) > 600:
             _cache.clear()
         try:
             _cache[key] = ('ok', _real_apply(kind, prog, params))
